@@ -104,10 +104,15 @@ package test
 //@   assigns reports
 //@ func helperNew
 //@   trusted
+// whichever judge is in charge is asked, and its verdict is what gets reported
 //@ func helperAssertEmpty
 //@   assigns reports
+//@   ensures [C20.judge] helper == nil ==> (reported() <==> !callres("assert.Empty", 0))
+//@   ensures [C20.judge] helper != nil ==> (reported() <==> callReported("AssertEmpty", 0))
 //@ func helperAssertEqual
 //@   assigns reports
+//@   ensures [C20.judge] helper == nil ==> (reported() <==> !callres("assert.Equal", 0))
+//@   ensures [C20.judge] helper != nil ==> (reported() <==> callReported("AssertEqual", 0))
 
 // ---- the helpers, one iteration at a time -----------------------------------------------------------------------------
 // A case is satisfied when both hooks return nil and either (a predicate is expected) the predicate accepts the error
@@ -124,7 +129,7 @@ package test
 //@   assigns reports
 //@   loop 0 invariant rangeindex >= -1 && (rangeindex == -1 || rangeindex < len(cases))
 //@   loop 0 invariant [C20.empty] rangeindex == -1 ==> !reported()
-//@   loop 0 step [C20.iter] implementsV(T, encoding.TextMarshaler) ==> (reportedInStep() <==> forMarshal(cases[rangeindex].Constraint) && !(hooksOK(callres("callForCase", 0), callres("callForCase", 1)) && marshalTextOK(local("c").Error != nil, callres("dyn", 0), callres("safeMarshalText", 0, 0), callres("safeMarshalText", 0, 1), local("c").Data)))
+//@   loop 0 step [C20.iter] implementsV(T, encoding.TextMarshaler) ==> (reportedInStep() <==> forMarshal(cases[rangeindex].Constraint) && !(hooksOK(callres("callForCase", 0), callres("callForCase", 1)) && marshalTextOK(local("c").Error != nil, callres("AssertErrorFunc", 0), callres("safeMarshalText", 0, 0), callres("safeMarshalText", 0, 1), local("c").Data)))
 //@   ensures [C20.empty] len(cases) == 0 ==> !reported()
 //@   ensures [C20.iface] len(cases) > 0 && !implementsV(T, encoding.TextMarshaler) ==> reported()
 //@   loop 0 invariant [C20.iface] implementsV(T, encoding.TextMarshaler) || rangeindex == -1
@@ -132,7 +137,7 @@ package test
 //@   assigns reports
 //@   loop 0 invariant rangeindex >= -1 && (rangeindex == -1 || rangeindex < len(cases))
 //@   loop 0 invariant [C20.empty] rangeindex == -1 ==> !reported()
-//@   loop 0 step [C20.iter] implementsV(T, json.Marshaler) ==> (reportedInStep() <==> forMarshal(cases[rangeindex].Constraint) && !(hooksOK(callres("callForCase", 0), callres("callForCase", 1)) && marshalTextOK(local("c").Error != nil, callres("dyn", 0), callres("safeMarshalJSON", 0, 0), callres("safeMarshalJSON", 0, 1), local("c").Data)))
+//@   loop 0 step [C20.iter] implementsV(T, json.Marshaler) ==> (reportedInStep() <==> forMarshal(cases[rangeindex].Constraint) && !(hooksOK(callres("callForCase", 0), callres("callForCase", 1)) && marshalTextOK(local("c").Error != nil, callres("AssertErrorFunc", 0), callres("safeMarshalJSON", 0, 0), callres("safeMarshalJSON", 0, 1), local("c").Data)))
 //@   ensures [C20.empty] len(cases) == 0 ==> !reported()
 //@   ensures [C20.iface] len(cases) > 0 && !implementsV(T, json.Marshaler) ==> reported()
 //@   loop 0 invariant [C20.iface] implementsV(T, json.Marshaler) || rangeindex == -1
@@ -140,7 +145,7 @@ package test
 //@   assigns reports
 //@   loop 0 invariant rangeindex >= -1 && (rangeindex == -1 || rangeindex < len(cases))
 //@   loop 0 invariant [C20.empty] rangeindex == -1 ==> !reported()
-//@   loop 0 step [C20.iter] implementsV(T, encoding.BinaryMarshaler) ==> (reportedInStep() <==> forMarshal(cases[rangeindex].Constraint) && !(hooksOK(callres("callForCase", 0), callres("callForCase", 1)) && marshalBinaryOK(local("c").Error != nil, callres("dyn", 0), callres("safeMarshalBinary", 0, 0), callres("safeMarshalBinary", 0, 1), local("c").Data)))
+//@   loop 0 step [C20.iter] implementsV(T, encoding.BinaryMarshaler) ==> (reportedInStep() <==> forMarshal(cases[rangeindex].Constraint) && !(hooksOK(callres("callForCase", 0), callres("callForCase", 1)) && marshalBinaryOK(local("c").Error != nil, callres("AssertErrorFunc", 0), callres("safeMarshalBinary", 0, 0), callres("safeMarshalBinary", 0, 1), local("c").Data)))
 //@   ensures [C20.empty] len(cases) == 0 ==> !reported()
 //@   ensures [C20.iface] len(cases) > 0 && !implementsV(T, encoding.BinaryMarshaler) ==> reported()
 //@   loop 0 invariant [C20.iface] implementsV(T, encoding.BinaryMarshaler) || rangeindex == -1
@@ -153,7 +158,7 @@ package test
 //@   loop 0 invariant rangeindex >= -1 && (rangeindex == -1 || rangeindex < len(cases))
 //@   loop 0 invariant [C20.empty] rangeindex == -1 ==> !reported()
 //@   loop 0 invariant rangeindex >= 0 ==> f != nil
-//@   loop 0 step [C20.iter] implementsV(T, encoding.TextUnmarshaler) || implementsP(T, encoding.TextUnmarshaler) ==> (reportedInStep() <==> forUnmarshal(cases[rangeindex].Constraint) && !(hooksOK(callres("callForCase", 0), callres("callForCase", 1)) && unmarshalOK(local("c").Error != nil, callres("dyn", 1), callReported("helperAssertEmpty", 0), callres("safeUnmarshalText", 0), callReported("helperAssertEqual", 0))))
+//@   loop 0 step [C20.iter] implementsV(T, encoding.TextUnmarshaler) || implementsP(T, encoding.TextUnmarshaler) ==> (reportedInStep() <==> forUnmarshal(cases[rangeindex].Constraint) && !(hooksOK(callres("callForCase", 0), callres("callForCase", 1)) && unmarshalOK(local("c").Error != nil, callres("AssertErrorFunc", 0), callReported("helperAssertEmpty", 0), callres("safeUnmarshalText", 0), callReported("helperAssertEqual", 0))))
 //@   ensures [C20.empty] len(cases) == 0 ==> !reported()
 //@   ensures [C20.iface] len(cases) > 0 && !(implementsV(T, encoding.TextUnmarshaler) || implementsP(T, encoding.TextUnmarshaler)) ==> reported()
 //@   loop 0 invariant [C20.iface] implementsV(T, encoding.TextUnmarshaler) || implementsP(T, encoding.TextUnmarshaler) || rangeindex == -1
@@ -162,7 +167,7 @@ package test
 //@   loop 0 invariant rangeindex >= -1 && (rangeindex == -1 || rangeindex < len(cases))
 //@   loop 0 invariant [C20.empty] rangeindex == -1 ==> !reported()
 //@   loop 0 invariant rangeindex >= 0 ==> f != nil
-//@   loop 0 step [C20.iter] implementsV(T, encoding.BinaryUnmarshaler) || implementsP(T, encoding.BinaryUnmarshaler) ==> (reportedInStep() <==> forUnmarshal(cases[rangeindex].Constraint) && !(hooksOK(callres("callForCase", 0), callres("callForCase", 1)) && unmarshalOK(local("c").Error != nil, callres("dyn", 1), callReported("helperAssertEmpty", 0), callres("safeUnmarshalBinary", 0), callReported("helperAssertEqual", 0))))
+//@   loop 0 step [C20.iter] implementsV(T, encoding.BinaryUnmarshaler) || implementsP(T, encoding.BinaryUnmarshaler) ==> (reportedInStep() <==> forUnmarshal(cases[rangeindex].Constraint) && !(hooksOK(callres("callForCase", 0), callres("callForCase", 1)) && unmarshalOK(local("c").Error != nil, callres("AssertErrorFunc", 0), callReported("helperAssertEmpty", 0), callres("safeUnmarshalBinary", 0), callReported("helperAssertEqual", 0))))
 //@   ensures [C20.empty] len(cases) == 0 ==> !reported()
 //@   ensures [C20.iface] len(cases) > 0 && !(implementsV(T, encoding.BinaryUnmarshaler) || implementsP(T, encoding.BinaryUnmarshaler)) ==> reported()
 //@   loop 0 invariant [C20.iface] implementsV(T, encoding.BinaryUnmarshaler) || implementsP(T, encoding.BinaryUnmarshaler) || rangeindex == -1
@@ -171,7 +176,7 @@ package test
 //@   loop 0 invariant rangeindex >= -1 && (rangeindex == -1 || rangeindex < len(cases))
 //@   loop 0 invariant [C20.empty] rangeindex == -1 ==> !reported()
 //@   loop 0 invariant rangeindex >= 0 ==> f != nil
-//@   loop 0 step [C20.iter] implementsV(T, json.Unmarshaler) || implementsP(T, json.Unmarshaler) ==> (reportedInStep() <==> forUnmarshal(cases[rangeindex].Constraint) && !(hooksOK(callres("callForCase", 0), callres("callForCase", 1)) && unmarshalOK(local("c").Error != nil, callres("dyn", 1), callReported("helperAssertEmpty", 0), callres("safeUnmarshalJSON", 0), callReported("helperAssertEqual", 0))))
+//@   loop 0 step [C20.iter] implementsV(T, json.Unmarshaler) || implementsP(T, json.Unmarshaler) ==> (reportedInStep() <==> forUnmarshal(cases[rangeindex].Constraint) && !(hooksOK(callres("callForCase", 0), callres("callForCase", 1)) && unmarshalOK(local("c").Error != nil, callres("AssertErrorFunc", 0), callReported("helperAssertEmpty", 0), callres("safeUnmarshalJSON", 0), callReported("helperAssertEqual", 0))))
 //@   ensures [C20.empty] len(cases) == 0 ==> !reported()
 //@   ensures [C20.iface] len(cases) > 0 && !(implementsV(T, json.Unmarshaler) || implementsP(T, json.Unmarshaler)) ==> reported()
 //@   loop 0 invariant [C20.iface] implementsV(T, json.Unmarshaler) || implementsP(T, json.Unmarshaler) || rangeindex == -1
